@@ -109,10 +109,19 @@ def kind_of(gtype):
     return {"simple": "simple", "digraph": "digraph", "dag": "digraph", "bipartite": "bipartite"}[gtype]
 
 
-def build(desc, name=DEFAULT, order=None, complete=False):
-    """cnfgen object for a plain description; edges inserted in the given order."""
+def build(desc, name=DEFAULT, order=None, complete=False, how="add_edge"):
+    """cnfgen object for a plain description; edges inserted in the given order.  how='refused-batch': the edges come
+    in through one add_edges_from call that ends with a pair the graph refuses, and the caller carries on with the
+    object (all its edges are in by then); how='user-class': a read-only subclass with computed edges (vmon/ducks.py)."""
     g = G_()
     edges = list(order) if order is not None else sorted(desc[-1])
+    if how == "user-class" and not complete:
+        from .. import ducks
+        if desc[0] == "bipartite":
+            return ducks.computed_bipartite(desc[1], desc[2], edges, name=None if name == DEFAULT else name)
+        if desc[0] == "simple":
+            return ducks.computed_graph(desc[1], edges, name=None if name == DEFAULT else name)
+        return ducks.computed_dag(desc[1], edges, name=None if name == DEFAULT else name)
     if desc[0] == "bipartite":
         if complete:
             return g.CompleteBipartiteGraph(desc[1], desc[2])
@@ -121,6 +130,15 @@ def build(desc, name=DEFAULT, order=None, complete=False):
         G = g.Graph(desc[1]) if name == DEFAULT else g.Graph(desc[1], name)
     else:
         G = g.DirectedGraph(desc[1]) if name == DEFAULT else g.DirectedGraph(desc[1], name)
+    if how == "refused-batch":
+        bad = (0, 1) if desc[0] != "simple" else (1, 1) if desc[1] >= 1 else (0, 1)
+        try:
+            G.add_edges_from(list(edges) + [bad, (desc[1] + 7, 1)])
+        except Exception:       # noqa: BLE001 - the refusal is what is expected
+            pass
+        if all(G.has_edge(u, v) for u, v in edges) and G.number_of_edges() == len(set(map(tuple, edges))):
+            return G
+        # (a graph type that takes nothing from a refused batch: fall back to edge-by-edge insertion)
     for u, v in edges:
         G.add_edge(u, v)
     return G
@@ -268,6 +286,25 @@ def transport(ctx, G, gtype, fmt, channel, scratch, r):
             return "write", st, val, None, fmts
         with quiet(ctx):
             st, H = ctx.call(g.readGraph, p, gtype)
+        return "read", st, H, None, fmts
+    if channel == "handle" and r.random() < 0.4:
+        # streams whose `name` is not a file name: an anonymous temporary file (name = a descriptor number), a spooled
+        # one (name = None); the format is given explicitly, as it must be for such streams
+        kind = r.choice(["TemporaryFile", "SpooledTemporaryFile", "fdopen"])
+        ctx.count("stream_without_file_name:" + kind)
+        if kind == "TemporaryFile":
+            f = tempfile.TemporaryFile("w+", encoding="utf-8")
+        elif kind == "SpooledTemporaryFile":
+            f = tempfile.SpooledTemporaryFile(mode="w+", encoding="utf-8")
+        else:
+            f = os.fdopen(os.open(p, os.O_RDWR | os.O_CREAT | os.O_TRUNC), "w+", encoding="utf-8")
+        with f:
+            st, val = ctx.call(g.writeGraph, G, f, gtype, fmt)
+            if st == "exc":
+                return "write", st, val, None, fmts
+            f.seek(0)
+            with quiet(ctx):
+                st, H = ctx.call(g.readGraph, f, gtype, fmt)
         return "read", st, H, None, fmts
     if channel == "handle":
         with open(p, "w", encoding="utf-8") as f:
@@ -468,9 +505,12 @@ def case_rt_random(ctx, gtype, fmt, channel, rseed, count):
             order = sorted(desc[-1])
             r.shuffle(order)
             complete = (gtype == "bipartite" and len(desc[-1]) == desc[1] * desc[2] and r.random() < 0.5)
-            G = build(desc, name=name, order=order, complete=complete)
+            how = r.choice(["add_edge", "add_edge", "refused-batch", "user-class"])
+            G = build(desc, name=name, order=order, complete=complete, how=how)
             if complete:
                 ctx.count("complete_bipartite_objects")
+            elif how != "add_edge":
+                ctx.count("graphs_built_by_" + how)
             stage, st, val, text, fmts = transport(ctx, G, gtype, fmt, channel, scratch, r)
             judge_roundtrip(ctx, desc, gtype, fmt, channel, stage, st, val, name=name, text=text, fmts=fmts)
             if channel == "stringio" and st == "ok" and stage == "read" and fmt in ref.READERS:
